@@ -35,7 +35,7 @@ FName == <<116, 101, 120, 116>>     \* Run() names its input "text"
 CmdResult(c, cmd, t) ==
   LET defs == IF Has(c, "defs") THEN c.defs ELSE <<>>
       E    == Expect(t, defs, cmd.body, cmd.amt)
-  IN IF cmd.kind = "find" THEN [ms |-> E.ms, firm |-> E.firm, undef |-> FALSE, noret |-> FALSE]
+  IN IF cmd.kind = "find" THEN [ms |-> E.ms, firm |-> E.firm, undef |-> FALSE, noret |-> FALSE, why |-> ""]
      ELSE LET tt == TransTable(c)
               R  == [j \in 1..Len(E.ms) |-> Replacement(t, E.ms[j], Len(E.ms), FName, tt, cmd.with)]
           IN [ms    |-> [j \in 1..Len(E.ms) |->
@@ -44,7 +44,9 @@ CmdResult(c, cmd, t) ==
                             repl |-> R[j].s]],
               firm  |-> E.firm,
               undef |-> \E j \in 1..Len(E.ms) : ~R[j].ok,
-              noret |-> \E j \in 1..Len(E.ms) : R[j].noreturn]
+              noret |-> \E j \in 1..Len(E.ms) : R[j].noreturn,
+              why   |-> IF \A j \in 1..Len(E.ms) : R[j].ok THEN ""
+                        ELSE R[CHOOSE j \in 1..Len(E.ms) : ~R[j].ok].undefwhy]
 
 (* process code whose termination the bounded evaluator cannot establish is *)
 (* not run (C09/C10/C12 speak about terminating process code only)          *)
@@ -56,7 +58,7 @@ Gate(c, t) ==
     \A ss \in ProcessCode(c) : \A j \in 1..Len(t) :
        RunProcess(ss, PredEnv(<<t[j]>>)).st # "fuel"
 
-SkippedResult(t) == [t |-> t, ms |-> <<>>, firm |-> FALSE, undef |-> FALSE, noret |-> FALSE, skip |-> TRUE]
+SkippedResult(t) == [t |-> t, ms |-> <<>>, firm |-> FALSE, undef |-> FALSE, noret |-> FALSE, why |-> "", skip |-> TRUE]
 
 TextResult(c, t) ==
   IF ~Gate(c, t) THEN SkippedResult(t) ELSE
@@ -65,7 +67,9 @@ TextResult(c, t) ==
       ms    |-> Cat([j \in 1..Len(c.cmds) |-> rs[j].ms]),
       firm  |-> \A j \in 1..Len(c.cmds) : rs[j].firm,
       undef |-> \E j \in 1..Len(c.cmds) : rs[j].undef,
-      noret |-> \E j \in 1..Len(c.cmds) : rs[j].noret]
+      noret |-> \E j \in 1..Len(c.cmds) : rs[j].noret,
+      why   |-> IF \A j \in 1..Len(c.cmds) : rs[j].why = "" THEN ""
+                ELSE rs[CHOOSE j \in 1..Len(c.cmds) : rs[j].why # ""].why]
 
 CaseResult(c) ==
   LET T == TextsOf(c)
